@@ -27,15 +27,17 @@ var errPermAccept = errors.New("accept: permanent failure (scripted)")
 
 // SrvScenario describes one server-level scenario.
 type SrvScenario struct {
-	Name     string     `json:"name"`
-	LMTP     bool       `json:"lmtp,omitempty"`
-	Accepts  []string   `json:"accepts"`            // answers to successive Accept calls: conn | temp | perm
-	Clients  [][]string `json:"clients"`            // per accepted connection: segments; "<EOF>" = disconnect
-	Admin    []string   `json:"admin"`              // close | shutdown | cancel | close2 | shutdown2
-	Gates    []string   `json:"gates,omitempty"`    // backend steps that are scheduling points: enter read status return
-	Locks    bool       `json:"locks,omitempty"`    // Lock() calls are scheduling points
-	Plan     string     `json:"plan,omitempty"`     // backend behaviour: "" read all & accept | "noread" never reads (returns when the reader fails) | "statuses"
-	Schedule []string   `json:"schedule,omitempty"` // for replay
+	Name      string     `json:"name"`
+	LMTP      bool       `json:"lmtp,omitempty"`
+	Accepts   []string   `json:"accepts"`              // answers to successive Accept calls: conn | temp | perm
+	Clients   [][]string `json:"clients"`              // per accepted connection: segments; "<EOF>" = disconnect
+	Admin     []string   `json:"admin"`                // close | shutdown | cancel | close2 | shutdown2
+	Gates     []string   `json:"gates,omitempty"`      // backend steps that are scheduling points: enter read status return
+	Locks     bool       `json:"locks,omitempty"`      // Lock() calls are scheduling points
+	Plan      string     `json:"plan,omitempty"`       // backend behaviour: "" read all & accept | "noread" never reads (returns when the reader fails) | "statuses"
+	ByContent bool       `json:"by_content,omitempty"` // the message's first line decides the verdict (accept…/reject…)
+	MaxBytes  int64      `json:"max_bytes,omitempty"`
+	Schedule  []string   `json:"schedule,omitempty"` // for replay
 }
 
 type fakeListener struct {
@@ -119,7 +121,7 @@ type srvWorld struct {
 func (w *srvWorld) Start(x *h.Exec) {
 	w.x = x
 	sc := w.sc
-	w.be = &h.Backend{LMTPSess: sc.LMTP}
+	w.be = &h.Backend{LMTPSess: sc.LMTP, ByContent: sc.ByContent}
 	gateSet := map[string]bool{}
 	for _, g := range sc.Gates {
 		gateSet[g] = true
@@ -147,7 +149,7 @@ func (w *srvWorld) Start(x *h.Exec) {
 		return true
 	}
 	w.log = &h.LogBuf{}
-	w.srv = h.Config{LMTP: sc.LMTP}.NewServer(w.be, w.log)
+	w.srv = h.Config{LMTP: sc.LMTP, MaxMessageBytes: sc.MaxBytes}.NewServer(w.be, w.log)
 	w.ln = &fakeListener{w: w, ch: make(chan interface{}), closed: make(chan struct{})}
 	w.ctx, w.cancel = context.WithCancel(context.Background())
 	go func() {
